@@ -117,7 +117,9 @@ func fitsWindow(v int64) bool { return -(1<<31) <= v && v <= 1<<31-1 }
 // nothing; otherwise every stream window the loop visits moves by exactly the difference between
 // the new and the old initial size when the result is a legal window, and stays unchanged when it
 // is not (outflow.add refuses); the new initial size is recorded and blocked writers are woken.
-// (That every stream is visited is the semantics of range over the stream map, not modelled.)
+// (That every stream is visited is the semantics of range over the stream map, not modelled; that
+// the range statement is reached on every path - also for a second GOAWAY, which may lower the
+// last-stream-id - is: ghost(ranged) == 1.)
 // SETTINGS_MAX_CONCURRENT_STREAMS is recorded exactly (C17).
 //
 //@ func (*clientConnReadLoop).processSettingsNoWrite$1(s) (err)
@@ -229,6 +231,7 @@ func neverUsedClosed(nextStreamID uint32, streamsReserved int, closed, closedOnI
 //@   requires forall id uint32 :: cc.streams[id] != nil && cc.streams[id].ID == id
 //@   ghost aborts += 1 at call abortStreamLocked
 //@   ghost retryable += 1 at call abortStreamLocked when $err == errClientConnGotGoAway
+//@   ghost ranged += 1 at loop 1
 //@   loop 1 invariant forall id uint32 :: cc.streams[id] != nil && cc.streams[id].ID == id
 //@   loop 1 invariant cc.goAway == f && f.LastStreamID == old(f.LastStreamID) && last == f.LastStreamID
 //@   loop 1 invariant f.ErrCode == ite(old(cc.goAway) != nil && old(cc.goAway.ErrCode) != ErrCodeNo, old(cc.goAway.ErrCode), old(f.ErrCode))
@@ -242,6 +245,7 @@ func neverUsedClosed(nextStreamID uint32, streamsReserved int, closed, closedOnI
 //@   ensures  cc.goAway == f && f.LastStreamID == old(f.LastStreamID)
 //@   ensures  f.ErrCode == ite(old(cc.goAway) != nil && old(cc.goAway.ErrCode) != ErrCodeNo, old(cc.goAway.ErrCode), old(f.ErrCode))
 //@   ensures  old(len(cc.goAwayDebug)) != 0 ==> cc.goAwayDebug == old(cc.goAwayDebug)
+//@   ensures  ghost(ranged) == 1
 //@   noframe
 
 // canRetryError: exactly the two connection-level "not sent / not processed" errors and
